@@ -26,7 +26,8 @@ RULE = ('Valid powertrains with emphasis on self-locking models that end a run h
         'powertrain is held, or a rule window spans the seam, or the load depends on time (rerun: the first epoch '
         'ends held or is controlled); distinct = canonical JSON.')
 ASSUMPTIONS = ['"re-applying the initial conditions" = position and speed of the last element and the motor\'s initial '
-               'duty cycle, exactly as before the first run', 'near-threshold policy: margins are computed from the '
+               'duty cycle, exactly as before the first run; in half of the cases whose first recorded duty cycle equals the '
+               'initial one the duty cycle is left to reset() (position and speed only)', 'near-threshold policy: margins are computed from the '
                'recorded values of the single-run execution']
 
 
@@ -171,7 +172,14 @@ def check_rerun(case) -> Result:
                 S.run_op(b, dict(r, op='run', control=ctl, new_solver=(ep == 1 and j == 0 and case['new_solver'])))
             epochs.append(S.Trace(b))
             if ep == 0:
-                S.run_op(b, {'op': 'reset', 'reinit': True})
+                # The duty cycle is re-applied as part of the initial conditions - except, when the case asks for it and
+                # the first recorded duty cycle equals the initial one (no rule in force at t = 0), it is left to
+                # reset() to restore it (position and speed only, as the documentation's examples do).
+                pw = epochs[0].get(0, 'pwm')
+                leave_pwm = bool(case.get('leave_pwm')) and len(pw) > 0 and pw[0] == case['motor'].get('pwm0', 1)
+                S.run_op(b, {'op': 'reset', 'reinit': True, 'reinit_pwm': not leave_pwm})
+                if leave_pwm:
+                    res.classes += ('pwm-left-to-reset',)
     except Exception as e:  # noqa
         res.classes += (f'run-raised:{type(e).__name__}',)
         res.run_error = e
@@ -241,6 +249,7 @@ def s_rerun(draw, max_steps=40):
         sched.append(G.s_run(draw, mdl, max_steps=max_steps // 2))
     case['schedule'] = [{'dt': r['dt'], 'T': r['T']} for r in sched]
     case['new_solver'] = draw(st.booleans())
+    case['leave_pwm'] = draw(st.booleans())
     case['history'] = []
     horizon = sum(U.si('TimeInterval', *r['T']) for r in sched)
     rules = G.s_constant_rules(draw, horizon, max_rules=3)
